@@ -318,6 +318,29 @@ Theorem c05_double_rounding_within_one : forall N D g, 0 <= N -> 0 < D -> 0 < g 
 Proof. exact double_rounding_within_one. Qed.
 Print Assumptions c05_double_rounding_within_one.
 
+(* the cast, on the model of Gen/MetaC05Rne.v itself (rne_q = exponent of the unit in the last place incl. subnormals, rne_m = significand
+   before renormalisation, wrap32 = renormalisation at 2^24 + overflow test): the exported float32 / float16 constant
+   `(float) <correctly rounded double>` (cast32_of_64) and the correctly rounded binary32 value are the images under the SAME wrapper of
+   two significands on the SAME grid that differ by at most one, i.e. equal or adjacent binary32 values: within one binary32 ulp.
+   For every positive rational (sign symmetric, not stated), binary32 and binary64 subnormals included.  NAMED SIDE CONDITIONS, not
+   discharged: the binary64 rounding is finite and non-zero (range of double), and SAME BINADE: the second rounding selects the same unit in
+   the last place (rne_q binary32 n d = rne_q binary32 a b; it can differ only when the binary64 result is exactly the next power of
+   two).  The check keeps verifying |c32 - rn32| <= 1 on every constant at run time. *)
+Theorem c05_float32_cast_within_one_ulp : forall a b mx qx n d, 0 < a -> 0 < b ->
+  rne binary64 a b = FFin false mx qx -> 0 < mx -> fval_q (FFin false mx qx) = Some (n, d) ->
+  rne_q binary32 n d = rne_q binary32 a b ->
+  cast32_of_64 a b = wrap32 (rne_q binary32 a b) (rne_m binary32 n d) /\
+  rne binary32 a b = wrap32 (rne_q binary32 a b) (rne_m binary32 a b) /\
+  -1 <= rne_m binary32 n d - rne_m binary32 a b <= 1.
+Proof. exact float32_cast_within_one_ulp. Qed.
+Print Assumptions c05_float32_cast_within_one_ulp.
+
+(* non-vacuity of the side conditions: 1/3 *)
+Example c05_float32_cast_example :
+  rne binary64 1 3 = FFin false 6004799503160661 (-54) /\ fval_q (FFin false 6004799503160661 (-54)) = Some (6004799503160661, 2 ^ 54) /\
+  rne_q binary32 6004799503160661 (2 ^ 54) = rne_q binary32 1 3.
+Proof. vm_compute. repeat split; reflexivity. Qed.
+
 (* ---- boolean constants, full name and version, Python class constants ---- *)
 Theorem c05_bool_literal_denotes : forall b,
   bool_token_denotes (filter_literal_bool c_lang b) = Some b /\ bool_token_denotes (filter_literal_bool cpp_lang b) = Some b.
